@@ -16,6 +16,8 @@ init_state it was created with, nothing but on_tick's append writes either, run_
 init_state; (R7) the live handler's view (ExternalContext._state, behind ctx.to_dict() and
 running_steps()) is rebuild_state_from_ticks(adapter.init_state, the adapter's whole log) and keeps
 nothing between calls.
+(R1) also follows locals that point into self.state (alias fixpoint over assignments, loops, dict views, next(generator)): a write
+through such a local is a change outside _reduce_tick that no recorded tick reproduces.
 Not decided: equality of concrete states (pydantic/dataclass copies are trusted).
 """
 
@@ -55,6 +57,59 @@ def _reducer_closure(repo) -> dict[str, ast.AST]:
     return seen
 
 
+
+_ELEMENT_PRESERVING = {"list", "tuple", "sorted", "reversed", "enumerate", "iter", "next", "filter"}
+_VIEW_METHODS = {"values", "items", "get", "setdefault", "pop", "copy"}      # .copy() of a container is shallow: elements still shared
+
+
+def _alias_root(e: ast.AST, aliases: set[str]) -> str | None:
+    """Name of the alias (or "self.state") that expression e points into, following attribute / subscript chains, dict views,
+    element-preserving wrappers and generator expressions drawing from such a place; None for anything that is a fresh value."""
+    while True:
+        if isinstance(e, (ast.Attribute, ast.Subscript)):
+            if isinstance(e, ast.Attribute) and e.attr == "state" and isinstance(e.value, ast.Name) and e.value.id == "self":
+                return "self.state"
+            e = e.value
+        elif isinstance(e, ast.Name):
+            return e.id if e.id in aliases else None
+        elif isinstance(e, ast.Call) and isinstance(e.func, ast.Attribute) and e.func.attr in _VIEW_METHODS:
+            e = e.func.value
+        elif isinstance(e, ast.Call) and isinstance(e.func, ast.Name) and e.func.id in _ELEMENT_PRESERVING and e.args:
+            e = e.args[0]
+        elif isinstance(e, (ast.GeneratorExp, ast.ListComp)):
+            inner = {n.id for g in e.generators if _alias_root(g.iter, aliases) for n in ast.walk(g.target) if isinstance(n, ast.Name)}
+            return _alias_root(e.elt, aliases | inner)
+        elif isinstance(e, ast.IfExp):
+            return _alias_root(e.body, aliases) or _alias_root(e.orelse, aliases)
+        else:
+            return None
+
+
+def _state_aliases(fn: ast.AST) -> set[str]:
+    """Locals of fn (nested functions included) that may point into self.state: fixpoint over assignments, loop targets, walrus."""
+    al: set[str] = set()
+    changed = True
+    while changed:
+        changed = False
+        for st in ast.walk(fn):
+            pairs: list[tuple[ast.AST, ast.AST]] = []
+            if isinstance(st, ast.Assign):
+                pairs = [(t, st.value) for t in st.targets]
+            elif isinstance(st, ast.AnnAssign) and st.value is not None:
+                pairs = [(st.target, st.value)]
+            elif isinstance(st, ast.NamedExpr):
+                pairs = [(st.target, st.value)]
+            elif isinstance(st, (ast.For, ast.AsyncFor)):
+                pairs = [(st.target, st.iter)]
+            for tgt, val in pairs:
+                if _alias_root(val, al) is None:
+                    continue
+                for n in ast.walk(tgt):
+                    if isinstance(n, ast.Name) and isinstance(n.ctx, ast.Store) and n.id not in al:
+                        al.add(n.id)
+                        changed = True
+    return al
+
 def run(chk) -> None:
     repo = chk.repo
     from ._engine import engine_view
@@ -86,6 +141,24 @@ def run(chk) -> None:
             if isinstance(n, ast.Subscript) and isinstance(n.ctx, (ast.Store, ast.Del)) and ast.unparse(n.value).startswith("self.state"):
                 chk.ob("C11.R1", "the runner never mutates its state in place", False, m=m, node=n, fn=fn, instance=f"state-mutation:{name}", reason=f"`{ast.unparse(n)[:60]}` written outside the reducer")
     chk.floor("C11.R1", "assignments to the runner's state", writes, 3)
+    # … nor through a local that still points into it (`ws = self.state.workers[name]; ws.in_progress = […]`)
+    aliased_reads = 0
+    for name, fn in methods.items():
+        al = _state_aliases(fn)
+        aliased_reads += len(al)
+        for n in ast.walk(fn):
+            hit = None
+            if isinstance(n, (ast.Attribute, ast.Subscript)) and isinstance(n.ctx, (ast.Store, ast.Del)) and _alias_root(n.value, al):
+                hit = n
+            elif isinstance(n, ast.Call) and isinstance(n.func, ast.Attribute) and n.func.attr in MUTATORS and _alias_root(n.func.value, al):
+                hit = n
+            elif isinstance(n, ast.AugAssign) and isinstance(n.target, (ast.Attribute, ast.Subscript)) and _alias_root(n.target.value, al):
+                hit = n
+            if hit is not None:
+                chk.ob("C11.R1", "the runner never mutates its state in place", False, m=m, node=hit, fn=fn, instance=f"state-mutation:{name}",
+                       reason=f"`{ast.unparse(hit)[:70]}` writes into the live state through the local `{_alias_root(hit.value if not isinstance(hit, (ast.Call, ast.AugAssign)) else (hit.func.value if isinstance(hit, ast.Call) else hit.target.value), al)}` "
+                              f"(which points into self.state): a change made outside _reduce_tick is in no recorded tick, so rebuild_state_from_ticks / to_dict() no longer reproduce the live state")
+    chk.floor("C11.R1", "locals of runner methods that point into self.state (read-only on the confirmed tree)", aliased_reads, 1)
 
     # ---------------------------------------------------------------- R2 recorded before commands run
     pt = methods.get("_process_tick")
@@ -327,6 +400,12 @@ def run(chk) -> None:
 
 
 TWINS = [
+    Twin("cancelled worker's slot freed in the live state through a local alias", CL_REL, "                    self._task_keys.pop(completed_task, None)\n",
+         "                    _key = self._task_keys.pop(completed_task, None)\n                    if _key is not None and completed_task.cancelled():\n                        _ws = self.state.workers[_key[0]]\n                        _ws.in_progress = [w for w in _ws.in_progress if w.worker_id != _key[1]]\n", "C11.R1"),
+    Twin("live state patched through a loop variable", CL_REL, "                    self._task_keys.pop(completed_task, None)\n",
+         "                    self._task_keys.pop(completed_task, None)\n                    for _ws in self.state.workers.values():\n                        _ws.collected_waiters.clear()\n", "C11.R1"),
+    Twin("benign: live state read through a local alias", CL_REL, "                    self._task_keys.pop(completed_task, None)\n",
+         "                    _key = self._task_keys.pop(completed_task, None)\n                    if _key is not None:\n                        _ws = self.state.workers[_key[0]]\n                        logger.debug(\"%d in progress\", len(_ws.in_progress))\n", None),
     Twin("rewind mutates the state it is given", CL_REL, "    state = state.deepcopy()\n    commands: list[WorkflowCommand] = []\n    for step_name, step_state in sorted(state.workers.items(), key=lambda x: x[0]):", "    commands: list[WorkflowCommand] = []\n    for step_name, step_state in sorted(state.workers.items(), key=lambda x: x[0]):", "C11.R5"),
     Twin("live view replays incrementally on a cached state", "packages/llama-index-workflows/src/workflows/context/external_context.py", "        state = snapshottable.init_state\n        new_state = rebuild_state_from_ticks(state, ticks)\n        return new_state", "        applied, state = getattr(self, \"_replayed\", None) or (0, snapshottable.init_state)\n        new_state = rebuild_state_from_ticks(state, ticks[applied:])\n        self._replayed = (len(ticks), new_state)\n        return new_state", "C11.R7"),
     Twin("live view skips the first tick", "packages/llama-index-workflows/src/workflows/context/external_context.py", "        new_state = rebuild_state_from_ticks(state, ticks)", "        new_state = rebuild_state_from_ticks(state, ticks[1:])", "C11.R7"),
